@@ -64,3 +64,22 @@ Example C09_example :
           (TStr KSingle (s2l "x'y"), (2, 1)); (TWs WSpace, (2, 7));
           (TWs (WLine (s2l "--") (s2l "c")), (2, 8)) ].
 Proof. vm_compute. reflexivity. Qed.
+
+(** Per-kind spelling: the chunk of input between a token's position and the next token's
+    position is that token's own text — verbatim for unquoted words, numbers (plus the L
+    suffix), placeholders, custom operators and comments (prefix + body, block comments with
+    their delimiters), one of the fixed spellings for punctuation and operators, exactly one
+    blank character for whitespace tokens (LF, CR or CRLF for Newline).  For every dialect
+    record, std class record, mode and input.  (Quote-delimited kinds: C20 / C06 theorems.) *)
+Require Import SqlV.LexerSpell.
+Theorem C09_spelling : forall d u unesc s ts, tokenize d u unesc s = LexOk ts ->
+  exists cs, concat cs = s /\ length cs = length ts /\
+    forall i t q, nth_error ts i = Some (t, q) -> spellb u t (nth i cs []) = true.
+Proof. exact lex_spell. Qed.
+Print Assumptions C09_spelling.
+
+Example C09_spelling_instances :
+  spellb std_uni (TFix FNeq) (s2l "!=") = true /\ spellb std_uni (TFix FNeq) (s2l "<>") = true /\
+  spellb std_uni (TFix FNeq) (s2l "=") = false /\ spellb std_uni (TNumber (s2l "1e5") true) (s2l "1e5L") = true /\
+  spellb std_uni (TWs (WBlock (s2l " c "))) (s2l "/* c */") = true.
+Proof. vm_compute. repeat split; reflexivity. Qed.
